@@ -24,7 +24,9 @@ drops it in its direct-response branch (`clearRetryState`), `onUpstreamHeaders` 
 "the request is (re)sent upstream".
 
 Not modelled (assumptions, stated in props/C14.json): what follows a retry, no downstream reset, no timer fires, filters
-do not write the response themselves (`AppendHeaders` on the handler), one upstream event.
+do not write the response themselves (`AppendHeaders` on the handler), one upstream event while the worker waits — plus
+([proxy8]) the reset of the accepted streamed response's upstream stream while the worker runs the sender filters
+(`Env.upfReset`, `upfEvent`).
 -/
 namespace MosnVerif.Model.FilterMachine
 open MosnVerif.Gen.FilterPhase MosnVerif.Model.FilterChain
@@ -63,6 +65,7 @@ structure Env where
   reqData : Bool := false
   reqTrailers : Bool := false
   up : UpEvent
+  upfReset : Bool := false        -- [proxy8] the label `reset during UpFilter`: the upstream stream of the accepted (streamed) response is reset while the worker runs the sender filters
 
 structure Cfg where
   recv : List RFilter
@@ -188,6 +191,30 @@ def sendPass (c : Cfg) (s : St) : St :=
   let (f, invs) := runSend c.send s.toFState
   emit (liftF s f) (.spass s.scursor invs)
 
+def isUpAdmitted : Ev → Bool
+  | .up false => true
+  | _ => false
+
+def isDenyEv : Ev → Bool
+  | .rpass _ _ invs => invs.any (fun iv => iv.2.isDeny)
+  | _ => false
+
+/-- [proxy8] the label `reset during UpFilter` of the shared downstream machine (`upResetL` enabled while `upfRunning`), as the
+one further upstream event of this machine: the request was admitted upstream (`NewStream` in the trace), the head of a
+streamed response (data / trailers still in flight: the client stream stays registered) was accepted, and while the worker
+runs the sender filters of that response the stream is reset — `upstreamRequest.OnResetStream` raises `upstreamReset`, which
+the `processError` that ends the UpFilter `case` finds at `s.phase == UpFilter`.  The event needs an upstream stream: it is
+not enabled after a deny (redundant with "admitted upstream" by `deny_not_forwarded`; kept so that the reply-side invariant
+does not depend on that theorem). -/
+def upfEnabled (c : Cfg) (s : St) : Bool :=
+  c.env.upfReset && s.upRespReceived && s.trace.any isUpAdmitted && !s.trace.any isDenyEv &&
+    (match c.env.up with | .resp _ d t => d || t | _ => false)
+
+def upfEvent (c : Cfg) (s : St) : St := if upfEnabled c s then { s with upstreamReset := true } else s
+
+/-- the sender-filter `case` up to its `processError`: the sender pass, during which the upstream reset may arrive -/
+def sendPassE (c : Cfg) (s : St) : St := upfEvent c (sendPass c s)
+
 /-- downStream.chooseHost -/
 def chooseHost (c : Cfg) (s : St) : St :=
   let s := { s with nChoose := s.nChoose + 1 }
@@ -248,7 +275,7 @@ def phaseCase (c : Cfg) (s : St) : St :=
   else if s.phase = WaitNotify then
     let s := deliver c s
     if s.halted then s else afterPE c s
-  else if s.phase = sendFilterPhase then afterPE c (sendPass c s)
+  else if s.phase = sendFilterPhase then afterPE c (sendPassE c s)
   else if s.phase = UpRecvHeader then
     match s.resp with
     | some r =>
